@@ -301,3 +301,29 @@ PROPS["C02"] = dict(
         seeded("sm", "e2e", "^TestC02$", 200 if tier == "quick" else 2500, 8 if tier == "quick" else 16, timeout=3000),
     ],
 )
+
+PROPS["C01"] = dict(
+    title="End-to-end media delivery preserves packets, order and identity",
+    pkg="e2e",
+    rule=("rapid-generated worlds: a stream of 1..3 medias x 1..3 formats (distinct payload types), direction server stream -> readers or "
+          "recording client (TCP or UDP) -> server session -> stream -> readers, 1..3 readers over UDP / TCP interleaved / HTTP tunnel / "
+          "WebSocket tunnel, plain or RTSPS (TLS, SRTP where the library negotiates it), write-queue sizes 8..256, and a history of 4..60 "
+          "actions: write (payload 1..1460 bytes biased to the extremes, drawn marker and timestamp, consecutive sequence numbers from a drawn "
+          "start placed to wrap inside the run), burst (up to 2*queue+8 packets), join, pause, play, leave. Oracle over the whole history per "
+          "reader and (media, format): every delivered packet equals a written one for that media and format (payload, marker, timestamp, "
+          "sequence number, payload type), indices strictly increase (order, at most once), payloads are re-compared at the end (buffer reuse), "
+          "SSRC equals the one announced in the SETUP response (single-format medias); on TCP-based readers every packet written between a "
+          "completed PLAY and the flush before the next PAUSE/leave arrived, unless a queue-full error was returned or delivered to "
+          "OnStreamWriteError, or the writer itself refused the packet. Non-trivial: >=2 formats in a media or >=2 readers, a join/pause/"
+          "leave after packets were written, and a packet within 8 bytes of the size limit. Distinct by case hash."),
+    assumptions=[
+        "actions are issued sequentially by the harness (writers do not race with reader joins); schedules inside the library are whatever the Go scheduler produces",
+        "readers use a 60 s read timeout so that an idle stream does not end them; a reader that cannot join is counted, not judged",
+        "secure cases keep packets within the SRTP size limit: a refused packet is a sequence gap for the SRTP context (see DESIGN.md, C01/C17 note on joining at the wrap)",
+        "UDP loss on loopback is not judged (in-order subsequence only)",
+    ],
+    jobs=lambda tier: [
+        seeded("delivery", "e2e", "^TestC01$", 50 if tier == "quick" else 1200, 8 if tier == "quick" else 16, timeout=3400),
+        seeded("delivery-secure", "e2e", "^TestC01Secure$", 25 if tier == "quick" else 600, 8 if tier == "quick" else 16, timeout=3400),
+    ],
+)
